@@ -28,6 +28,34 @@ def _mob(c):
     return "mob other"
 
 
+# tracked values that are not plain numbers: written for the model as 1000 + their index in this table; what comes back in
+# the consequence must be THAT value, type for type (a tuple stays a tuple, an int key stays an int)
+TRACK_VALUES = [(3.0, 4.0, 0.0), {0: 1, 2: 3}, [1, 2, 3], "text", (1, (2, 3)), {"a": (1, 2)}, 2.5, None, True, (), [(0, 0)], {1: "one", "1": "uno"}]
+
+
+def _same(a, b):
+    if type(a) is not type(b):
+        return False
+    if isinstance(a, (tuple, list)):
+        return len(a) == len(b) and all(_same(x, y) for x, y in zip(a, b))
+    if isinstance(a, dict):
+        return len(a) == len(b) and all(any(_same(k, k2) and _same(v, b[k2]) for k2 in b) for k, v in a.items())
+    return a == b
+
+
+def _track_value(v):
+    return TRACK_VALUES[v - 1000] if isinstance(v, int) and v >= 1000 else v
+
+
+def _track_code(x):
+    if isinstance(x, int) and not isinstance(x, bool):
+        return str(x)
+    for i, v in enumerate(TRACK_VALUES):
+        if _same(x, v):
+            return str(1000 + i)
+    return "altered:" + repr(x).replace(" ", "")
+
+
 def _conseq(c):
     ty, payload = c
     if ty == ConsequenceType.COMMUNICATION:
@@ -37,7 +65,7 @@ def _conseq(c):
     if ty == ConsequenceType.TIMER:
         return "timer %s %s" % (payload[0], fhex(payload[1]))
     if ty == ConsequenceType.TRACK_VARIABLE:
-        return "track %s %s" % (payload[0], payload[1])
+        return "track %s %s" % (payload[0], _track_code(payload[1]))
     return "unknown"
 
 
@@ -121,7 +149,7 @@ def run_interop_impl(case):
 
                 def hook(proto, tracks=tracks, ins=cb.get("install")):
                     for k, v in tracks:
-                        proto.provider.tracked_variables[str(k)] = v
+                        proto.provider.tracked_variables[str(k)] = _track_value(v)
                     if ins:
                         _install(proto, ins)
                 S.CTX.after_fire = hook
@@ -245,6 +273,9 @@ def mon_C14(case, lines):
             v.append("C14: the list returned by callback %d (%s) changed after it was returned: it now holds [%s]" % (i, cb["kind"], later))
         body, _, outs = line.partition(";")
         cons = [x.strip() for x in body.split("|")][1:]
+        for x in cons:
+            if x.startswith("track") and "altered:" in x:
+                v.append("C14: callback %d (%s): a tracked value came back altered in the returned request: %s" % (i, cb["kind"], x))
         fwd = [x for x in cons if not x.startswith("track")]
         want = [x for x in py[i] if not x.startswith("cancel")]
         if fwd != want:
